@@ -213,6 +213,14 @@ transform (const Box<Vec3<S>>& box, const Matrix44<T>& m, Box<Vec3<S>>& result)
 
     if (m[0][3] == 0 && m[1][3] == 0 && m[2][3] == 0 && m[3][3] == 1)
     {
+        //
+        // 'result' may be the same object as 'box': read the corners
+        // before the first component of the result is written.
+        //
+
+        const Vec3<S> boxMin = box.min;
+        const Vec3<S> boxMax = box.max;
+
         for (int i = 0; i < 3; i++)
         {
             result.min[i] = result.max[i] = (S) m[3][i];
@@ -221,8 +229,8 @@ transform (const Box<Vec3<S>>& box, const Matrix44<T>& m, Box<Vec3<S>>& result)
             {
                 S a, b;
 
-                a = (S) m[j][i] * box.min[j];
-                b = (S) m[j][i] * box.max[j];
+                a = (S) m[j][i] * boxMin[j];
+                b = (S) m[j][i] * boxMax[j];
 
                 if (a < b)
                 {
@@ -340,6 +348,10 @@ affineTransform (
         return;
     }
 
+    // 'result' may be the same object as 'box' (see transform above)
+    const Vec3<S> boxMin = box.min;
+    const Vec3<S> boxMax = box.max;
+
     for (int i = 0; i < 3; i++)
     {
         result.min[i] = result.max[i] = (S) m[3][i];
@@ -348,8 +360,8 @@ affineTransform (
         {
             S a, b;
 
-            a = (S) m[j][i] * box.min[j];
-            b = (S) m[j][i] * box.max[j];
+            a = (S) m[j][i] * boxMin[j];
+            b = (S) m[j][i] * boxMax[j];
 
             if (a < b)
             {
